@@ -11,6 +11,7 @@ CONSTANTS
   TrOnly = TRUE
   AxisBy = "dims"
   Memo = FALSE
+  SweepStride = 1
   WriteVia = "data"
   ClampBy = "dim"
   RangeBy = "coords"
